@@ -9,7 +9,8 @@ theorem fact_translated_all :
       "utils_EthTxEffectiveFee", "utils_CheckIfAccountIsSuitableForDestroyingAt", "duallane_validateSingleFee",
       "duallane_getMinGasPricesAllowed", "duallane_getTxPriority", "keeper_StateTransition_gasUsed",
       "keeper_StateTransition_buyGas", "keeper_StateTransition_preCheck", "keeper_StateTransition_refundGas",
-      "types_BinSearch", "types_BlockGasLimit", "misc_CalcBaseFee", "core_IntrinsicGas", "keeper_Keeper_CalculateBaseFee"] := by
+      "types_BinSearch", "keeper_erc20CustomPrecompiledContractRwTransferFrom_spendAllowance",
+      "types_BlockGasLimit", "misc_CalcBaseFee", "core_IntrinsicGas", "keeper_Keeper_CalculateBaseFee"] := by
   decide +kernel
 
 theorem fact_uninterpreted :
